@@ -529,7 +529,7 @@ func (c *Ctx) goRun(name, src string) (string, string, bool) {
 	defer cancel()
 	cmd := exec.CommandContext(ctx, "go", "run", ".")
 	cmd.Dir = dir
-	cmd.Env = append(os.Environ(), "GOFLAGS=-mod=mod", "GOPROXY=off", "GOSUMDB=off", "GOTOOLCHAIN=local")
+	cmd.Env = append(os.Environ(), "GOFLAGS=-mod=mod", "GOPROXY=off", "GOSUMDB=off", "GOTOOLCHAIN=local", "GOCACHE="+calGoCache())
 	var so, se bytes.Buffer
 	cmd.Stdout, cmd.Stderr = &so, &se
 	err := cmd.Run()
@@ -695,9 +695,33 @@ func runGoDir(dir string) (string, string, bool) {
 	defer cancel()
 	cmd := exec.CommandContext(ctx, "go", "run", "-gcflags=cal/...=-N -l", ".") // no inlining / dead-load elimination: the optimising compiler drops nil checks of unused operands of inlined calls
 	cmd.Dir = dir
-	cmd.Env = append(os.Environ(), "GOFLAGS=-mod=mod", "GOPROXY=off", "GOSUMDB=off", "GOTOOLCHAIN=local")
+	cmd.Env = append(os.Environ(), "GOFLAGS=-mod=mod", "GOPROXY=off", "GOSUMDB=off", "GOTOOLCHAIN=local", "GOCACHE="+calGoCache())
 	var so, se bytes.Buffer
 	cmd.Stdout, cmd.Stderr = &so, &se
 	err := cmd.Run()
 	return so.String(), se.String(), err == nil
 }
+
+// calGoCache: the thousands of one-off packages of the calibration programs are compiled into a build cache of their own
+// (under /verif/.build), which is emptied when it has grown beyond about 4 GB: the user's Go build cache does not grow
+// with every run.
+func calGoCache() string {
+	dir := filepath.Join(verifRoot, ".build", "gocache-cal")
+	os.MkdirAll(dir, 0o755)
+	calCacheOnce.Do(func() {
+		var size int64
+		filepath.Walk(dir, func(_ string, info os.FileInfo, err error) error {
+			if err == nil && !info.IsDir() {
+				size += info.Size()
+			}
+			return nil
+		})
+		if size > 4<<30 {
+			os.RemoveAll(dir)
+			os.MkdirAll(dir, 0o755)
+		}
+	})
+	return dir
+}
+
+var calCacheOnce sync.Once
